@@ -1,6 +1,7 @@
 package main
 
 import (
+	"os"
 	"bytes"
 	"context"
 	"encoding/base64"
@@ -248,6 +249,23 @@ func init() {
 						return a, ok
 					}
 					return SrvAction{}, false
+				}
+				if r.Chance(25) {
+					// aborted from the application side: Close() from another goroutine in the middle of the exchange.
+					// What the client then sends depends on the schedule, so there is no model comparison: log oracle only
+					sc.CloseDuringAuth = 1 + r.Intn(2)
+					sc.LogAuth = false
+					run := RunAuthFirst(sc)
+					if run.Panic != nil {
+						c.Violate("dial-panic", fmt.Sprintf("the client panicked / hung: %v", run.Panic), sc)
+						continue
+					}
+					if os.Getenv("GMDEBUG") != "" {
+						fmt.Fprintf(os.Stderr, "DEBUG %s k=%d err=%v logs=%q\n", ac.mech, sc.CloseDuringAuth, run.Err, run.Logs)
+					}
+					c.Count(true, fmt.Sprint(i), fmt.Sprintf("%s:closed-during-auth", ac.mech))
+					oracleLogs(c, sc, run)
+					continue
 				}
 				run := RunAuthFirst(sc)
 				if run.Panic != nil {
